@@ -104,7 +104,10 @@ type workerOut struct {
 	res     *Result
 	crashed *Violation
 	timeout bool
-	stderr  string
+	// sanitizerDied: a race-build worker died twice inside the sanitizer runtime (see runParent)
+	sanitizerDied bool
+	notes         []string
+	stderr        string
 }
 
 func runParent(id, tier string) int {
@@ -177,6 +180,21 @@ func runParent(id, tier string) int {
 			go func(i int) {
 				defer wg.Done()
 				res[i] = spawnWorker(exe, ch, tier, seed, i, n, part.race, scratch, wd)
+				// a race-build worker that dies inside the sanitizer runtime itself (a signal whose program
+				// counter lies in __tsan / __sanitizer code) says nothing about buf: run the shard once more,
+				// and if it dies there again the shard is inconclusive, not a violation
+				for attempt := 0; attempt < 2 && part.race && res[i].crashed != nil && sanitizerRuntimeCrash(exe, res[i].stderr); attempt++ {
+					note := fmt.Sprintf("race worker shard=%d died inside the sanitizer runtime (attempt %d)", i, attempt+1)
+					if attempt == 0 {
+						r2 := spawnWorker(exe, ch, tier, seed, i, n, part.race, scratch, wd)
+						r2.notes = append(r2.notes, note+"; shard re-run")
+						res[i] = r2
+					} else {
+						res[i].crashed = nil
+						res[i].sanitizerDied = true
+						res[i].notes = append(res[i].notes, note)
+					}
+				}
 			}(i)
 		}
 		wg.Wait()
@@ -190,7 +208,10 @@ func runParent(id, tier string) int {
 		if o.crashed != nil {
 			total.Violations = append(total.Violations, *o.crashed)
 		}
-		if o.timeout {
+		total.Notes = append(total.Notes, o.notes...)
+		if o.sanitizerDied {
+			inconclusive = append(inconclusive, fmt.Sprintf("race-runtime-crash shard=%d", o.shard))
+		} else if o.timeout {
 			inconclusive = append(inconclusive, fmt.Sprintf("watchdog shard=%d race=%v", o.shard, o.race))
 		} else if o.res == nil && o.crashed == nil {
 			inconclusive = append(inconclusive, fmt.Sprintf("worker-no-result shard=%d race=%v: %s", o.shard, o.race, tail(o.stderr, 400)))
@@ -375,7 +396,7 @@ func spawnWorker(exe string, ch *Check, tier string, seed uint64, shard, of int,
 		if last >= 0 {
 			out.crashed = &Violation{
 				Class: "crash", Key: fmt.Sprintf("case=%d", last), Case: last, Race: race,
-				Message: fmt.Sprintf("worker died (%v) while executing case %d; stderr tail: %s", werr, last, tail(out.stderr, 3000)),
+				Message: fmt.Sprintf("worker died (%v) while executing case %d; stderr head: %s\n…\nstderr tail: %s", werr, last, head(out.stderr, 3000), tail(out.stderr, 3000)),
 			}
 			// partial results of earlier cases are lost; the run is still decided (violated)
 		}
@@ -543,4 +564,30 @@ func parseRaceLogs(dir string) (map[string]raceReport, int) {
 		}
 	}
 	return out, n
+}
+
+func head(s string, n int) string {
+	if len(s) <= n {
+		return s
+	}
+	return s[:n]
+}
+
+var ripRE = regexp.MustCompile(`(?m)^rip\s+(0x[0-9a-f]+)$`)
+
+// sanitizerRuntimeCrash reports whether the crash dump of a race-build worker shows a signal whose program
+// counter resolves into the ThreadSanitizer runtime of the binary (go tool addr2line).
+func sanitizerRuntimeCrash(exe, stderr string) bool {
+	m := ripRE.FindStringSubmatch(stderr)
+	if m == nil {
+		return false
+	}
+	cmd := exec.Command("go", "tool", "addr2line", exe)
+	cmd.Stdin = strings.NewReader(m[1] + "\n")
+	out, err := cmd.Output()
+	if err != nil {
+		return false
+	}
+	sym := strings.SplitN(string(out), "\n", 2)[0]
+	return strings.Contains(sym, "__tsan") || strings.Contains(sym, "__sanitizer")
 }
